@@ -269,6 +269,7 @@ type vtC01Gen struct {
 	gqm    *GroupQuotaManager
 	in     []int64
 	nops   int
+	deep   bool
 	pods   map[int64]*vtC01GenPod
 	quotas map[int64]*vtC01GenQuota
 	big    bool
@@ -386,7 +387,11 @@ func (g *vtC01Gen) newQuota() bool {
 	}
 	id := free[g.r.Intn(len(free))]
 	ps := g.parentCandidates(0)
-	q := &vtC01GenQuota{parent: ps[g.r.Intn(len(ps))], isParent: g.r.Intn(2) == 0, lend: g.r.Intn(3) != 0,
+	par := ps[g.r.Intn(len(ps))]
+	if len(ps) > 1 && g.r.Intn(3) != 0 { // prefer a real parent over the root: deeper trees
+		par = ps[1+g.r.Intn(len(ps)-1)]
+	}
+	q := &vtC01GenQuota{parent: par, isParent: g.r.Intn(2) == 0 || (g.deep && len(g.quotas) < 2), lend: g.r.Intn(3) != 0,
 		maxc: g.amount(30), maxm: g.amount(30), mc: g.amount(12), mm: g.amount(12)}
 	g.emitQuota(id, q)
 	return true
@@ -398,8 +403,17 @@ func (g *vtC01Gen) changeQuota() bool {
 		return false
 	}
 	id := ids[g.r.Intn(len(ids))]
+	kind := g.r.Intn(9)
+	if kind >= 6 && kind <= 7 && g.r.Intn(2) == 0 { // re-parent: prefer a quota that has children
+		for _, c := range ids {
+			if g.hasChildren(c) {
+				id = c
+				break
+			}
+		}
+	}
 	q := *g.quotas[id]
-	switch g.r.Intn(9) {
+	switch kind {
 	case 0, 1:
 		q.maxc, q.maxm = g.amount(30), g.amount(30)
 	case 2, 3:
@@ -444,7 +458,7 @@ func (g *vtC01Gen) deleteQuota() bool {
 }
 
 func (g *vtC01Gen) newObj(pid int64) []int64 {
-	return []int64{pid, g.amount(12), g.amount(12), vtB(g.r.Intn(4) == 0), vtB(g.r.Intn(3) == 0), 0}
+	return []int64{pid, g.amount(12), g.amount(12), vtB(g.r.Intn(4) == 0), vtB(g.r.Intn(2) == 0), 0}
 }
 
 func (g *vtC01Gen) podOp() bool {
@@ -515,8 +529,8 @@ func (g *vtC01Gen) podOp() bool {
 }
 
 func vtC01Gen_(r *rand.Rand, i int) (string, []int64) {
-	style := []string{"small", "small", "small", "big", "deep"}[r.Intn(5)]
-	g := &vtC01Gen{r: r, pods: map[int64]*vtC01GenPod{}, quotas: map[int64]*vtC01GenQuota{}, big: style == "big"}
+	style := []string{"small", "small", "big", "deep", "deep"}[r.Intn(5)]
+	g := &vtC01Gen{r: r, pods: map[int64]*vtC01GenPod{}, quotas: map[int64]*vtC01GenQuota{}, big: style == "big", deep: style == "deep"}
 	hdr := []int64{1 << 50, 1 << 50, 1 << 50, 1 << 50, 0}
 	if r.Intn(3) == 0 { // a default quota that limits
 		hdr[2], hdr[3] = r.Int63n(20), r.Int63n(20)
